@@ -462,14 +462,35 @@ func genDBCase(e *Env) *jDBCase {
 	t := &c.Table
 	switch e.Mode {
 	case "c03": // storage location independence: all / some fields, memstore on and (after a flush) off
+		if r.Intn(3) == 0 {
+			// restart-heavy schedules on tables with a WHERE: flushes while the memstore holds nothing
+			// but the WAL position moved (offset file), followed by data flushes and clean restarts
+			if c.Table.Where == nil {
+				c.Table.Where = genPred(r, 1)
+			}
+			c.FlushAfter, c.ReopenAt = nil, nil
+			for i := range c.Points {
+				if r.Intn(2) == 0 {
+					c.FlushAfter = append(c.FlushAfter, i)
+				}
+				if r.Intn(5) == 0 {
+					c.ReopenAt = append(c.ReopenAt, i)
+				}
+			}
+			c.ReopenAt = append(c.ReopenAt, len(c.Points)-1)
+		}
 		c.FinalFlush = r.Intn(2) == 0
 		c.Queries = []jQuery{{Mem: true}, genSubsetQuery(r, t, true)}
 		if c.FinalFlush {
 			c.Queries = append(c.Queries, jQuery{Mem: false}, genSubsetQuery(r, t, false))
 		}
-	case "c06": // coarser grouping
+	case "c06": // coarser grouping; a third of the queries with a window the period need not divide
 		for i := 0; i < 4; i++ {
-			c.Queries = append(c.Queries, genGroupQuery(r, t, false))
+			q := genGroupQuery(r, t, r.Intn(3) == 0)
+			if q.HasAsOf && q.PeriodNS == 0 {
+				q.PeriodNS = t.ResNS * int64(2+r.Intn(4))
+			}
+			c.Queries = append(c.Queries, q)
 		}
 	case "c07": // time windows
 		for i := 0; i < 5; i++ {
